@@ -14,8 +14,7 @@ MUTANTS = [
      'edits': [(CL, "            self._next_batch_index = batch_index\n\n    def reset",
                 "            pass\n\n    def reset")]},
     {'id': 'c04-smc-no-cancel', 'props': ['C04'], 'what': 'SMC does not cancel speculative batches at a round end',
-     'edits': [(SA, "        if self._rejection.finished:\n            self.batches.cancel_pending()\n",
-                "        if self._rejection.finished:\n")]},
+     'edits': [(SA, "            self.batches.cancel_pending()\n            if self.bar:\n", "            if self.bar:\n")]},
     {'id': 'c04-smc-stale-round-rng', 'props': ['C04'], 'what': 'SMC keeps the previous round proposal generator',
      'edits': [(SA, "        self._round_random_state = np.random.RandomState(seed)\n",
                 "        if self._round_random_state is None:\n            self._round_random_state = np.random.RandomState(seed)\n")]},
@@ -25,11 +24,38 @@ MUTANTS = [
     {'id': 'c04-wait-newest', 'props': ['C04'], 'what': 'wait_next pops the newest pending batch',
      'edits': [(CL, "self._pending_batches.popitem(last=False)", "self._pending_batches.popitem(last=True)")]},
     {'id': 'c04-objective-pending', 'props': ['C04'], 'what': 'Rejection objective estimate reads batches.num_pending',
-     'edits': [(SA, "            n_batches = self.objective['n_batches'] + 1\n",
-                "            n_batches = self.objective['n_batches'] + 1 + self.batches.num_pending\n")]},
+     'edits': [(SA, "            n_batches = ceil(n_batches)\n",
+                "            n_batches = ceil(n_batches) + self.batches.num_pending\n")]},
     {'id': 'c04-global-rng-proposal', 'props': ['C04'], 'what': 'SMC proposals drawn from np.random instead of the round generator',
      'edits': [(SA, "                                    random_state=self._round_random_state)",
                 "                                    random_state=None)")]},
     {'id': 'c04-no-final-cancel', 'props': ['C04'], 'what': 'infer() does not cancel pending batches at the end',
      'edits': [(PI, "        self.batches.cancel_pending()\n        if vis:", "        if vis:")]},
+    # ---------------- C01
+    {'id': 'c01-tail-off-by-one', 'props': ['C01'], 'what': 'accepted rows written one slot before the tail',
+     'edits': [(SA, "                v[-num_accepted:] = batch[node][accepted]", "                v[-num_accepted - 1:-1] = batch[node][accepted]")]},
+    {'id': 'c01-stable-sort-payload', 'props': ['C01'], 'what': 'payload outputs sorted with a stable argsort, discrepancy with quicksort: rows misalign on ties',
+     'edits': [(SA, "        for k, v in samples.items():\n            v[:] = v[sort_mask]",
+                "        stable_mask = np.argsort(sort_distance, kind='stable')\n        for k, v in samples.items():\n            v[:] = v[sort_mask] if k == self.discrepancy_name else v[stable_mask]")]},
+    {'id': 'c01-extract-plus-one', 'props': ['C01'], 'what': 'extract_result slices n_samples+1 rows',
+     'edits': [(SA, "            outputs[k] = v[:self.objective['n_samples']]\n\n        return Sample(", "            outputs[k] = v[:self.objective['n_samples'] + 1]\n\n        return Sample(")]},
+    {'id': 'c01-strict-threshold', 'props': ['C01'], 'what': '< instead of <= against the threshold when accepting',
+     'edits': [(SA, "            accepted = batch[self.discrepancy_name] <= self.objective.get('threshold')", "            accepted = batch[self.discrepancy_name] < self.objective.get('threshold')")]},
+    {'id': 'c01-budget-floor', 'props': ['C01'], 'what': 'budget converted to batches with floor instead of ceil',
+     'edits': [(SA, "        if n_sim:\n            n_batches = ceil(n_sim / self.batch_size)", "        if n_sim:\n            n_batches = max(1, n_sim // self.batch_size)")]},
+    {'id': 'c01-threshold-off', 'props': ['C01'], 'what': 'reported threshold taken one row too early',
+     'edits': [(SA, "        s['threshold'] = s['samples'][self.discrepancy_name][o['n_samples'] - 1]", "        s['threshold'] = s['samples'][self.discrepancy_name][max(0, o['n_samples'] - 2)]")]},
+    # ---------------- C07
+    {'id': 'c07-weights-swapped', 'props': ['C07'], 'what': 'importance weight numerator/denominator swapped',
+     'edits': [(SA, "            w = np.exp(p_logpdf - q_logpdf)", "            w = np.exp(q_logpdf - p_logpdf)")]},
+    {'id': 'c07-stale-previous', 'props': ['C07'], 'what': 'mixture taken from the population before last',
+     'edits': [(SA, "        sample = self._populations[-1]\n        return sample.means", "        sample = self._populations[max(0, len(self._populations) - 2)]\n        return sample.means")]},
+    {'id': 'c07-cov-no-factor', 'props': ['C07'], 'what': 'proposal covariance without the factor 2',
+     'edits': [(SA, "        cov = 2 * np.diag(weighted_var(params, w))", "        cov = np.diag(weighted_var(params, w))")]},
+    {'id': 'c07-cov-unweighted', 'props': ['C07'], 'what': 'proposal covariance from the un-weighted variance',
+     'edits': [(SA, "        cov = 2 * np.diag(weighted_var(params, w))", "        cov = 2 * np.diag(weighted_var(params))")]},
+    {'id': 'c07-proposal-unconditioned', 'props': ['C07'], 'what': 'proposal not conditioned on the prior support',
+     'edits': [(SA, "                                    prior_logpdf=self._prior.logpdf,\n", "                                    prior_logpdf=None,\n")]},
+    {'id': 'c07-unweighted-quantile', 'props': ['C07'], 'what': 'round threshold from the un-weighted quantile',
+     'edits': [(SA, "            weights=previous_population.weights)", "            weights=None)")]},
 ]
